@@ -69,4 +69,26 @@ theorem slice_floats_in_order {db : MDb} {deps : List (String × List String)} {
     (topFloats sl).Sublist (topFloats db) :=
   MM.slice_floats_in_order (floatLabelsFresh_of_nodup hlabels) h hmem
 
+/-- disjointness: every pair of the global `$d` statements seen so far whose two variables the slice declares (`mvs`: the
+variables of its `$v` statement) is stated in the slice, so a `$d` side condition the lemma's proof relies on is still there -/
+theorem slice_keeps_disjointness {cut : List (String × MStmt)} {disjoints : List (String × String)}
+    {deps : List (String × List String)} {label : String} {terms : List MTerm} {proof : List String}
+    {ess : List MStmt} {sl : MDb}
+    (h : supportingDb cut disjoints deps label terms proof ess = some sl) :
+    ∃ mvs : List String, (mvs ≠ [] → sl[1]? = some (MStmt.var (sortDedup mvs))) ∧
+      ∀ a b, (a, b) ∈ disjoints → a ∈ mvs → b ∈ mvs → MStmt.disj [a, b] ∈ sl := by
+  obtain ⟨labels, neededStmts, consts, _, _, _, hsl⟩ := MM.slice_shape h
+  refine ⟨stmtsMvs (.prov label terms proof :: (ess ++ neededStmts)), ?_, ?_⟩
+  · intro hne
+    rw [hsl]
+    simp [MM.varStmtOf, hne]
+  · intro a b hab ha hb
+    rw [hsl]
+    apply List.mem_cons_of_mem
+    apply List.mem_append_left
+    apply List.mem_append_left
+    apply List.mem_append_right
+    simp only [MM.disjStmtsOf, List.mem_map, List.mem_filter]
+    exact ⟨(a, b), ⟨hab, by simp [ha, hb]⟩, rfl⟩
+
 end C17
